@@ -169,6 +169,7 @@ static int create_socket(struct xcm_socket *s)
 
     if (enable_pass_cred(fd) < 0) {
 	LOG_PASS_CRED_FAILED(errno);
+	ut_close(fd);
 	deinit(s, true);
 	return -1;
     }
